@@ -78,6 +78,11 @@ def load_named_consts(text):
             o = Obj("error::codes::Code")
             o.fields[(None, 0)] = Cell(z3.BitVecVal(int(mc.group(1)), 64))
             consts["Code::" + name] = o
+    # plain integer constants written on one line: `const NAME: usize = const 32_usize;`
+    from .sym import INT_BITS
+    for m in re.finditer(r"^const (\w+): (\w+) = const (\d+)_(\w+);", text, re.M):
+        if m.group(4) in INT_BITS and m.group(1) not in consts:
+            consts[m.group(1)] = z3.BitVecVal(int(m.group(3)), INT_BITS[m.group(4)])
     return consts
 
 
